@@ -1,4 +1,5 @@
 import Proofs.C04
+import Proofs.C04.Part
 /-!
 # C04 — removed entries stay removed: tombstones block resurrection and are never shown
 
@@ -8,8 +9,11 @@ in flight to any node at any later time and any number of times, full-state exch
 clock tick). Provisos as in `Props/C06.lean`: coherent clash-free universe `U` closed under removal
 (`TombClosed`), CAS functions write timestamps ≥ 1 and not above the clock (`GoodRun`), and the
 tombstone is retained (`cfg.lit = 0`: the retention is not reached during the history).
-Partition ring: the entry-level rules are proved here; its whole-descriptor merge is tied by the
-correspondence check and judged on the implementation (see MANIFEST level_note).
+Partition ring: entry-level rules and, on top of the partition-ring laws of `Proofs/C03P.lean`,
+descriptor-level theorems (`WF` = unique ids, owner timestamps ≥ 1): deleted partitions / owners block
+older entries, stay deleted along any sequence of merges, and a local update stamps a missing
+partition with `now`. The node-level theorems are stated for ring descriptors; the partition ring at
+node level is tied by the correspondence check and judged on the implementation.
 -/
 namespace PC04
 open Ring C03 C06 PfC03 PfC06 PfC04
@@ -107,6 +111,46 @@ open C03P in
 theorem partition_strip_hides (d : PDesc) :
     (∀ p ∈ (C03P.removeTombstones none d).parts, p.state ≠ partDeleted) ∧
     (∀ o ∈ (C03P.removeTombstones none d).owners, o.state ≠ ownerDeleted) := pstrip_mem d
+
+/-! ### partition ring, descriptor level -/
+open C03P in
+/-- a deleted partition keeps its state (deleted, same timestamp) against any incoming descriptor whose
+entry for it is not newer — same second included -/
+theorem partition_tombstone_blocks_desc (a b : PDesc) (hb : PfC03P.WF b) (k : Int) (t : Part)
+    (ht : getP a.parts k = some t) (hdel : t.state = partDeleted) (hold : ∀ o, getP b.parts k = some o → o.stateTs ≤ t.stateTs) :
+    ∃ p, getP (C03P.mergeState a b).parts k = some p ∧ p.state = partDeleted ∧ p.stateTs = t.stateTs :=
+  part_tombstone_blocks a b hb k t ht hdel hold
+
+open C03P in
+theorem owner_tombstone_blocks_desc (a b : PDesc) (ha : PfC03P.WF a) (hb : PfC03P.WF b) (k : String) (t : Owner)
+    (ht : getO a.owners k = some t) (hdel : t.state = ownerDeleted) (hold : ∀ o, getO b.owners k = some o → o.ts ≤ t.ts) :
+    getO (C03P.mergeState a b).owners k = some t :=
+  PfC04.owner_tombstone_blocks_desc a b ha hb k t ht hdel hold
+
+open C03P in
+/-- along ANY sequence of merged descriptors a deleted partition stays deleted or carries a newer state timestamp -/
+theorem partition_no_resurrection (s : PDesc) (l : List PDesc) (hl : ∀ d ∈ l, PfC03P.WF d) (k : Int) (t : Part)
+    (ht : getP s.parts k = some t) (hdel : t.state = partDeleted) :
+    ∃ p, getP (l.foldl C03P.mergeState s).parts k = some p ∧ (p.state = partDeleted ∨ p.stateTs > t.stateTs) :=
+  part_no_resurrection s l hl k t ht hdel
+
+open C03P in
+theorem owner_no_resurrection (s : PDesc) (l : List PDesc) (hs : PfC03P.WF s) (hl : ∀ d ∈ l, PfC03P.WF d) (k : String) (t : Owner)
+    (ht : getO s.owners k = some t) (hdel : t.state = ownerDeleted) (p : Owner)
+    (hp : getO (l.foldl C03P.mergeState s).owners k = some p) : p.state = ownerDeleted ∨ p.ts > t.ts :=
+  PfC04.owner_no_resurrection s l hs hl k t ht hdel p hp
+
+open C03P in
+/-- a partition missing from a local update's result is stored as deleted with state timestamp `now` -/
+theorem partition_removal_stamp_desc (now : Int) (a b : PDesc) (ha : (a.parts.map Part.id).Nodup) (hb : PfC03P.WF b) (t : Part)
+    (ht : getP a.parts t.id = some t) (hlive : t.state ≠ partDeleted) (hmiss : getP b.parts t.id = none) :
+    getP (C03P.merge true now a b).state.parts t.id = some { t with state := partDeleted, stateTs := now } :=
+  part_removal_stamp now a b ha hb t ht hlive hmiss
+
+-- non-vacuity: partition 1 (active@9) removed at 10; the in-flight entry active@10 does not bring it back
+example : (C03P.mergeState (C03P.merge true 10 { parts := [{ id := 1, tokens := [5], state := 2, stateTs := 9 }] } {}).state
+    { parts := [{ id := 1, tokens := [5], state := 2, stateTs := 10 }] }).parts =
+    [{ id := 1, tokens := [5], state := C03P.partDeleted, stateTs := 10 }] := by decide
 
 /-! ### Why the clock proviso is needed (witness, checked by evaluation)
 A heartbeat stamped ABOVE the remover's clock (writer's clock ahead) survives the removal: the
